@@ -86,10 +86,11 @@ from vf.common import enc  # noqa
 
 c1 = onp.array([True, False, True, False])
 c2 = onp.array([True, False, False, False])
-add("KF-select-int-choice-dtype", ["C06"],
-    "autograd.numpy.select with an integer choice next to a traced float choice returns an integer array when no traced element is selected (NumPy promotes to float): result dtype depends on the data",
-    {"engine": "values", "family": "wrapper", "fn": "select", "symptom": ["primal_mismatch"]},
-    {"kind": "wrapper", "form": {"name": "select", "args": enc([[c1, c2], [onp.array([1, -3, 2, 5]), onp.array([0.5, 1.5, 2.5, 3.5])]]), "kw": enc({}), "tr": None, "prop": False}})
+add("KF-select-int-choice-dtype", ["C06", "C02", "C04", "C05", "C09"],
+    "autograd.numpy.select rebuilds its result from the selected elements, so the result dtype depends on the data: when no element of a float choice is selected (all taken from an integer choice or from the integer default 0) the result - and the forward-mode tangent - is an integer array where NumPy returns float64",
+    [{"engine": "values", "family": "wrapper", "fn": "select", "symptom": ["primal_mismatch"]}, {"prim": "select", "form": "selectfun", "symptom": ["wrong_kind", "wrong_dtype", "primal_mismatch", "wrong_shape"]}],
+    {"C06": {"kind": "wrapper", "form": {"name": "select", "args": enc([[c1, c2], [onp.array([1, -3, 2, 5]), onp.array([0.5, 1.5, 2.5, 3.5])]]), "kw": enc({}), "tr": None, "prop": False}},
+     "default": P.encode_case(case("select", [[onp.zeros(4, dtype=bool)], [A(4)]], argnum=0, form="selectfun"))})
 
 # ---------------------------------------------------------------- repaired defects ('fix:' commits in /repo)
 cc = onp.array([[True, False, True], [False, False, True]])
